@@ -748,6 +748,11 @@ func verifyFunc(w *World, sp *Specs, fn *ssa.Function, spec *FuncSpec, safety bo
 		for _, c := range spec.Requires {
 			x.assumeIn(st, x.evalBool(env, c.E))
 		}
+		if spec.BoundK > 0 {
+			for _, c := range spec.BoundAssume {
+				x.assumeIn(st, x.evalBool(env, c.E))
+			}
+		}
 	}
 	x.entry = st.snap()
 	// vacuity probe: the precondition must be satisfiable
